@@ -324,6 +324,80 @@ def memo_fields(prog, F):
     return out
 
 
+def _reduce_for_listener_element(prog, body, elem):
+    """the loop body specialised for `elem` being an EventListener object: tests on it (and on locals that are copies of it) that this decides are
+    spliced; returns the new statement list, or None when a statement kind is not handled"""
+    listener_classes = {c for c in prog.classes if any(k in ('EventListener', 'EventListenerInterface') for k in prog.mro(c))} | {'object'}
+    alias = {elem}
+
+    def decide(t):
+        if isinstance(t, ast.UnaryOp) and isinstance(t.op, ast.Not):
+            v = decide(t.operand)
+            return None if v is None else not v
+        if isinstance(t, ast.BoolOp):
+            vs = [decide(v) for v in t.values]
+            if isinstance(t.op, ast.And):
+                return False if False in vs else True if all(v is True for v in vs) else None
+            return True if True in vs else False if all(v is False for v in vs) else None
+        if isinstance(t, ast.Compare) and len(t.ops) == 1 and isinstance(t.left, ast.Name) and t.left.id in alias \
+                and isinstance(t.comparators[0], ast.Constant) and t.comparators[0].value is None:
+            if isinstance(t.ops[0], (ast.Is, ast.Eq)):
+                return False
+            if isinstance(t.ops[0], (ast.IsNot, ast.NotEq)):
+                return True
+        if isinstance(t, ast.Call) and unparse(t.func) == 'isinstance' and len(t.args) == 2 and isinstance(t.args[0], ast.Name) and t.args[0].id in alias:
+            tn = [unparse(x).split('.')[-1] for x in (t.args[1].elts if isinstance(t.args[1], ast.Tuple) else [t.args[1]])]
+            if any(x in ('EventListener', 'EventListenerInterface', 'object') for x in tn):
+                return True
+            if not any(x in listener_classes for x in tn):
+                return False                     # a class outside the listener hierarchy (weakref.ref, type, str, ..): a plain listener is none of them
+        if isinstance(t, ast.Name) and t.id in alias:
+            return None                          # truthiness of a listener object: user-defined
+        return None
+
+    def red(stmts):
+        out = []
+        for st in stmts:
+            if isinstance(st, ast.If):
+                v = decide(st.test)
+                if v is None:
+                    b, o = red(st.body), red(st.orelse)
+                    if b is None or o is None:
+                        return None
+                    out.append(ast.If(test=st.test, body=b or [ast.Pass()], orelse=o))
+                else:
+                    r = red(st.body if v else st.orelse)
+                    if r is None:
+                        return None
+                    out += r
+            elif isinstance(st, ast.Assign) and len(st.targets) == 1 and isinstance(st.targets[0], ast.Name):
+                val = st.value
+                if isinstance(val, ast.IfExp):
+                    v = decide(val.test)
+                    if v is not None:
+                        val = val.body if v else val.orelse
+                if isinstance(val, ast.Name) and val.id in alias:
+                    alias.add(st.targets[0].id)             # a copy of the element
+                    continue
+                if st.targets[0].id in alias:
+                    return None                              # the element (or a copy) re-bound to something else
+                out.append(st)
+            elif isinstance(st, (ast.Expr, ast.Pass)):
+                out.append(st)
+            else:
+                return None
+        return out
+
+    r = red(body)
+    if r is None:
+        return None
+
+    class _Ren(ast.NodeTransformer):
+        def visit_Name(self, n):
+            return ast.copy_location(ast.Name(id=elem, ctx=n.ctx), n) if n.id in alias else n
+    return [ast.fix_missing_locations(_Ren().visit(copy.deepcopy(x))) for x in r]
+
+
 def r81(ctx):
     prog = ctx.prog
     F = listeners_field(prog)
@@ -366,6 +440,16 @@ def r81(ctx):
             notifies = [c for s in loop.body for c in ast.walk(s) if isinstance(c, ast.Call) and isinstance(c.func, ast.Attribute) and c.func.attr == 'notify']
             if not notifies:
                 continue
+            if isinstance(loop, ast.For) and isinstance(loop.target, ast.Name) and (len(loop.body) != 1 or not isinstance(loop.body[0], ast.Expr)):
+                # by the case the property speaks of -- the element is a (strongly held) EventListener: not None, not an instance of any class
+                # outside the listener hierarchy --, the body is reduced (decided tests spliced, copies of the element followed) before it is
+                # compared with `element.notify(event)`
+                red = _reduce_for_listener_element(prog, loop.body, loop.target.id)
+                if red is not None and red != loop.body:
+                    loop = ast.For(target=loop.target, iter=loop.iter, body=red, orelse=loop.orelse, lineno=loop.lineno, col_offset=loop.col_offset,
+                                   end_lineno=getattr(loop, 'end_lineno', loop.lineno), end_col_offset=getattr(loop, 'end_col_offset', 0))
+                    notifies = [c for s_ in loop.body for c in ast.walk(s_) if isinstance(c, ast.Call) and isinstance(c.func, ast.Attribute) and c.func.attr == 'notify']
+                    ctx.note(f'R8.1: {P}.{fn.name}: delivery loop read for a strongly held EventListener element: {[short(s_, 40) for s_ in red]}')
             n += 1
             problems = []
             param = fn.args.args[1].arg if len(fn.args.args) > 1 else None
